@@ -11,7 +11,6 @@ use super::{
 };
 use alloc::vec::Vec;
 use serde::Deserialize;
-use serde_json::Deserializer;
 
 /// A connection that can only be used for reading.
 ///
@@ -121,20 +120,33 @@ impl<Read: ReadHalf> ReadConnection<Read> {
     {
         self.read_from_socket().await?;
 
-        let mut stream = Deserializer::from_slice(&self.buffer[self.msg_pos..]).into_iter::<M>();
-        let msg = stream.next();
-        let null_index = self.msg_pos + stream.byte_offset();
-        let buffer = &self.buffer[self.msg_pos..null_index];
-        if self.buffer[null_index + 1] == b'\0' {
+        // A message ends at its null terminator, whatever the JSON decoder makes of its content.
+        // `read_from_socket` guarantees that there is one at or after `msg_pos`.
+        let start = self.msg_pos;
+        let null_index = start
+            + self.buffer[start..]
+                .iter()
+                .position(|b| *b == b'\0')
+                .unwrap_or(self.read_pos.saturating_sub(start));
+        if null_index + 1 >= self.read_pos {
             // This means we're reading the last message and can now reset the indices.
             self.read_pos = 0;
             self.msg_pos = 0;
         } else {
             self.msg_pos = null_index + 1;
         }
+        let buffer = &self.buffer[start..null_index];
+        if buffer
+            .iter()
+            .all(|b| matches!(b, b' ' | b'\t' | b'\n' | b'\r'))
+        {
+            // Nothing but (possibly no) whitespace before the terminator.
+            return Err(crate::Error::UnexpectedEof);
+        }
 
-        match msg {
-            Some(Ok(msg)) => {
+        // Exactly this message is decoded: only whitespace may surround the JSON document.
+        match serde_json::from_slice::<M>(buffer) {
+            Ok(msg) => {
                 // SAFETY: Since the parsing from JSON already succeeded, we can be sure that the
                 // buffer contains a valid UTF-8 string.
                 trace!("connection {}: received a message: {}", self.id, unsafe {
@@ -142,8 +154,7 @@ impl<Read: ReadHalf> ReadConnection<Read> {
                 });
                 Ok(msg)
             }
-            Some(Err(e)) => Err(e.into()),
-            None => Err(crate::Error::UnexpectedEof),
+            Err(e) => Err(e.into()),
         }
     }
 
